@@ -345,6 +345,26 @@ def body_balance(case, rec):
     if case.get("unmap"):
         r, p = cg.unmapped(r), cg.unmapped(p)
         y = f"{r}>>{p}"
+    # other valid spellings of molecular hydrogen: the single-atom form [HH] (one H atom carrying one hydrogen);
+    # optionally an extra H2 on one or both sides (H-only imbalance, or still balanced)
+    if case.get("h2"):
+        def respell(side):
+            out = []
+            for f in side.split("."):
+                m = cg.parse(f)
+                if m is not None and m.GetNumAtoms() == 2 and m.GetNumBonds() == 1 and all(a.GetAtomicNum() == 1 and a.GetFormalCharge() == 0 for a in m.GetAtoms()):
+                    f = "[HH]"
+                out.append(f)
+            return ".".join(out)
+
+        r, p = respell(r), respell(p)
+        if case["h2"] in (1, 3):
+            r += ".[HH]"
+        if case["h2"] in (2, 3):
+            p += ".[HH]"
+        y = f"{r}>>{p}"
+        if "[HH]" in y:
+            rec.label("dihydrogen-as-[HH]")
     fr, fp = cg.side_formula(r), cg.side_formula(p)
     exp = fr == fp
     kind = (case.get("edit") or {}).get("kind", "none") if applied else "none"
@@ -383,6 +403,7 @@ def strat_balance(tier):
             spec=st.one_of(none, none, cg.variant_spec_strategy()),
             edit=st.one_of(st.none(), frag, atom, atom),
             unmap=st.sampled_from([False, False, True]),
+            h2=st.sampled_from([0, 0, 0, 1, 2, 3, 4]),
         )
     )
 
